@@ -22,7 +22,7 @@ TIERS = {
                   random_jobs=4, forests=40, queries=25, terms=250),
     "thorough": dict(nmax=6, anodes=3, alevels=2, deep2=6, cap=dict(struct=250000, attr=250000, truth=100000),
                      every=dict(struct=3, attr=4, truth=1),
-                     random_jobs=12, forests=300, queries=40, terms=3000),
+                     random_jobs=12, forests=200, queries=40, terms=3000),
 }
 
 ASSUMPTIONS = [
